@@ -3,7 +3,10 @@
 //! selection of 2..3 programs from a pool; every transition executes the real build / real run on a real data
 //! object cloned from its parent state; the invariant is evaluated in every state.
 
+use crate::ast::print;
+use crate::corpus::Corpus;
 use crate::fw::{guard, Ctx, Meta, Property, Tier};
+use crate::props::c01::{ref_terminates, spaces};
 use crate::props::pipeline::{check_stream, snapshot};
 use crate::subj::{build_g, current_value, lex_g, parse_g, run_to_end, start, BData, Host, SData, Subject};
 use crate::val::{get, V};
@@ -264,6 +267,194 @@ fn run_selection<D: Subject>(cx: &mut Ctx, sel: &[usize], depth: usize) {
     }
 }
 
+
+// ---------------------------------------------------------------------------------------------------------------
+// Part 2: generated programs. Every program of the C01 corpora up to a size bound is built into data objects that
+// already hold (and have executed) prelude programs, in every order, and twice in a row; invariants (a), (b), (c)
+// as above, with the solo run of the generated program (whatever it yields, a failure kind included) as the
+// differential oracle.
+
+/// prelude programs: between them they use a nested expression applied at once, an expression kept in a pair and
+/// applied later, a conditional with else, && / ||, a side effect, symbols, text, and the small constants (0, 1, 2)
+/// that generated programs intern too
+pub const PRELUDES: [&str; 2] = [
+    "{ $ + 1 } <~ 1 , (:k = { $ ?> 2 |> 0 }) . k ~~ , \"ab\"",
+    "$ > 1 && 2 || 0 ; { $ [ 1 + $ ] } <~ $ , :a",
+];
+
+/// sub-corpora: (corpus, number of programs used = all programs up to `nodes` AST nodes)
+fn gen_spaces(tier: Tier) -> Vec<(&'static Corpus, u64)> {
+    let s = spaces(tier);
+    let upto = |c: &'static Corpus, nodes: usize| -> (&'static Corpus, u64) {
+        let n: u64 = (0..=nodes.min(c.max)).map(|k| c.count_of_size(k)).sum();
+        (c, n)
+    };
+    vec![upto(&s.t1, 9), upto(&s.t3, tier.pick(5, 6)), upto(&s.t4, tier.pick(7, 9)), upto(&s.t5, tier.pick(5, 7))]
+}
+
+fn gen_total(tier: Tier) -> u64 {
+    gen_spaces(tier).iter().map(|x| x.1).sum()
+}
+
+fn gen_locate(tier: Tier, mut i: u64) -> (&'static Corpus, u64) {
+    for (c, n) in gen_spaces(tier) {
+        if i < n {
+            return (c, i);
+        }
+        i -= n;
+    }
+    panic!("C20 generated index out of range")
+}
+
+/// outcome of running a built program from its entry: the value or the failure kind, shown as text
+fn run_shown<D: Subject>(d: &mut D, entry: usize) -> String {
+    let r = (|| -> Result<V, crate::subj::Fail> {
+        start(d, entry, &V::Int(5))?;
+        run_to_end(d, 3000)?;
+        current_value(d)
+    })();
+    match r {
+        Ok(v) => v.show(),
+        Err(f) => format!("<{}>", f.kind()),
+    }
+}
+
+fn solo_src<D: Subject>(src: &str) -> Option<String> {
+    let mut d = D::fresh(Host::none());
+    let toks = lex_g(src).ok()?;
+    let pr = parse_g(&toks).ok()?;
+    let bd = build_g(&pr, &mut d).ok()?;
+    Some(run_shown(&mut d, *bd.jump_index()))
+}
+
+/// one scenario: a sequence of steps over named sources; `b k` builds source k, `r k` runs the latest build of k
+fn scenario<D: Subject>(srcs: &[&str], steps: &[(char, usize)], solos: &[String]) -> Result<(), (String, usize)> {
+    let mut d = D::fresh(Host::none());
+    let mut built: Vec<Built> = vec![];
+    for (n, (what, k)) in steps.iter().enumerate() {
+        let fail = |m: String| (m, n);
+        match what {
+            'b' => {
+                let toks = lex_g(srcs[*k]).map_err(|f| fail(format!("does-not-lex:{}", f.kind())))?;
+                let pr = parse_g(&toks).map_err(|f| fail(format!("does-not-parse:{}", f.kind())))?;
+                let before = snapshot(&d);
+                let bd = build_g(&pr, &mut d).map_err(|f| fail(format!("build-fails-in-shared-object[{}]", f.kind())))?;
+                check_stream(&d, &before, &bd, pr.get_nodes().len()).map_err(|m| fail(format!("new-build-malformed[{}]", m.0)))?;
+                let b = snapshot_built(&d, *k, *bd.jump_index(), (before.instr, d.get_instruction_len()), (before.jumps, d.get_jump_table_len()));
+                built.push(b);
+            }
+            _ => {
+                let b = built.iter().rev().find(|b| b.prog == *k).cloned().ok_or_else(|| fail("run-of-unbuilt".into()))?;
+                let got = run_shown(&mut d, b.entry);
+                if got != solos[*k] {
+                    return Err(fail(format!("result-differs-from-solo-build[{}]", if got.starts_with('<') { got.clone() } else { "value".into() })));
+                }
+                if got.starts_with('<') {
+                    // the run failed the same way it fails alone (a recorded finding of C01/C06 or a step cap): the
+                    // object now holds the residue of an aborted run; the scenario ends here
+                    for b in &built {
+                        unchanged(&d, b).map_err(|m| fail(m))?;
+                    }
+                    return Ok(());
+                }
+            }
+        }
+        for b in &built {
+            unchanged(&d, b).map_err(|m| fail(m))?;
+        }
+    }
+    Ok(())
+}
+
+const SCENARIOS: [(&str, &[(char, usize)]); 5] = [
+    // source 0 = prelude A, 1 = prelude B, 2 = the generated program
+    ("preludes-then-program", &[('b', 0), ('r', 0), ('b', 1), ('b', 2), ('r', 2), ('r', 1), ('r', 0), ('r', 2)]),
+    ("program-then-preludes", &[('b', 2), ('r', 2), ('b', 0), ('r', 0), ('r', 2), ('b', 1), ('r', 1), ('r', 2)]),
+    ("program-between", &[('b', 1), ('b', 2), ('b', 0), ('r', 0), ('r', 2), ('r', 1)]),
+    ("program-twice", &[('b', 2), ('b', 2), ('r', 2), ('b', 0), ('b', 2), ('r', 2), ('r', 0)]),
+    ("unrun-prelude", &[('b', 0), ('b', 2), ('r', 2), ('r', 2)]),
+];
+
+/// first failing scenario of one generated program: (kind, scenario name, step, solo outcome)
+fn gen_fail<D: Subject>(src: &str, only: Option<&str>, cx: Option<&mut Ctx>) -> Option<(String, String, usize, String)> {
+    // the preludes' solo outcomes are computed once per implementation and worker process
+    static PRE: std::sync::Mutex<Vec<(&'static str, [Option<String>; 2])>> = std::sync::Mutex::new(Vec::new());
+    let pre = {
+        let mut g = PRE.lock().unwrap();
+        match g.iter().find(|x| x.0 == D::NAME) {
+            Some(x) => x.1.clone(),
+            None => {
+                let v = [solo_src::<D>(PRELUDES[0]), solo_src::<D>(PRELUDES[1])];
+                g.push((D::NAME, v.clone()));
+                v
+            }
+        }
+    };
+    let solos: Vec<String> = match (pre[0].clone(), pre[1].clone(), solo_src::<D>(src)) {
+        (Some(a), Some(b2), Some(c)) => vec![a, b2, c],
+        (Some(_), Some(_), None) => {
+            if let Some(cx) = cx {
+                cx.count("generated_not_accepted_alone", 1);
+            }
+            return None;
+        }
+        _ => return Some(("prelude-fails-alone".into(), "prelude does not compile".into(), 0, String::new())),
+    };
+    if solos[0].starts_with('<') || solos[1].starts_with('<') {
+        return Some(("prelude-fails-alone".into(), format!("{} {}", solos[0], solos[1]), 0, solos[2].clone()));
+    }
+    let srcs = [PRELUDES[0], PRELUDES[1], src];
+    let mut n = 0u64;
+    let mut tr = 0u64;
+    let mut out = None;
+    for (name, steps) in SCENARIOS.iter() {
+        if only.map(|o| o != *name).unwrap_or(false) {
+            continue;
+        }
+        n += 1;
+        tr += steps.len() as u64;
+        let r = match guard(|| scenario::<D>(&srcs, steps, &solos)) {
+            Ok(r) => r,
+            Err(p) => Err((format!("panic[{}]", crate::fw::panic_kind(&p)), 0)),
+        };
+        if let Err((kind, at)) = r {
+            out = Some((kind, name.to_string(), at, solos[2].clone()));
+            break;
+        }
+    }
+    if let Some(cx) = cx {
+        for _ in 0..n {
+            cx.eval();
+        }
+        cx.count("traces_validated", n);
+        cx.count("states", tr);
+        cx.count("transitions", tr);
+        cx.count("gen_scenarios", n);
+    }
+    out
+}
+
+fn gen_check<D: Subject>(cx: &mut Ctx, e: &crate::ast::E) {
+    let src = match print(e) {
+        Some(s) => s,
+        None => return,
+    };
+    if let Some((kind, _, _, _)) = gen_fail::<D>(&src, None, Some(cx)) {
+        let mut fails = |c: &crate::ast::E| match print(c) {
+            Some(s) => matches!(gen_fail::<D>(&s, None, None), Some((ref k, _, _, _)) if *k == kind),
+            None => false,
+        };
+        let w = crate::shrink::shrink(e, &mut fails);
+        let wsrc = print(&w).unwrap_or(src.clone());
+        let (k2, name, at, solo) = gen_fail::<D>(&wsrc, None, None).unwrap_or((kind.clone(), "?".into(), 0, String::new()));
+        cx.violation(
+            &k2,
+            &format!("{} | {} step {} | {}", D::NAME, name, at, wsrc.replace('\n', "\\n")),
+            json!({"gen": true, "impl": D::NAME, "src": wsrc, "first_seen_src": src, "scenario": name, "step": at, "solo": solo, "preludes": PRELUDES}),
+        );
+    }
+}
+
 impl Property for C20 {
     fn id(&self) -> &'static str {
         "C20"
@@ -271,10 +462,14 @@ impl Property for C20 {
     fn level(&self) -> &'static str {
         "model_checking"
     }
-    fn size(&self, _tier: Tier) -> u64 {
-        selections()
+    fn size(&self, tier: Tier) -> u64 {
+        selections() + gen_total(tier)
     }
-    fn describe(&self, _tier: Tier, idx: u64) -> String {
+    fn describe(&self, tier: Tier, idx: u64) -> String {
+        if idx >= selections() {
+            let (c, i) = gen_locate(tier, idx - selections());
+            return format!("generated {}#{}: {}", c.name, i, print(&c.program(i)).unwrap_or_default());
+        }
         let sel = selection(idx);
         let solos: Vec<String> = sel.iter().map(|p| format!("{} => {}", POOL[*p].replace('\n', "\\n"), solo::<SData>(*p).map(|v| v.show()).unwrap_or("<fails>".into()))).collect();
         format!("selection {:?}: {}", sel, solos.join(" ; "))
@@ -283,6 +478,20 @@ impl Property for C20 {
         20_000
     }
     fn run(&self, tier: Tier, idx: u64, cx: &mut Ctx) {
+        if idx >= selections() {
+            let (c, i) = gen_locate(tier, idx - selections());
+            let e = c.program(i);
+            if c.name == "T4" && !ref_terminates(&e) {
+                cx.count("generated_never_ending_dropped", 1);
+                return;
+            }
+            gen_check::<SData>(cx, &e);
+            gen_check::<BData>(cx, &e);
+            cx.nontrivial(idx);
+            cx.count(&format!("generated_{}", c.name), 1);
+            cx.sample_at(30_011, || json!({"generated": print(&e), "solo": print(&e).and_then(|s| solo_src::<SData>(&s)), "scenarios": SCENARIOS.iter().map(|s| s.0).collect::<Vec<_>>()}));
+            return;
+        }
         let sel = selection(idx);
         let depth = tier.pick(5, 6);
         run_selection::<SData>(cx, &sel, depth);
@@ -291,6 +500,15 @@ impl Property for C20 {
         cx.sample_at(211, || json!({"programs": sel.iter().map(|p| POOL[*p]).collect::<Vec<_>>(), "solo_results": sel.iter().map(|p| solo::<SData>(*p).map(|v| v.show())).collect::<Vec<_>>(), "events": "every history of build(next) / run(built) / residue up to the depth"}));
     }
     fn replay(&self, d: &Value, cx: &mut Ctx) {
+        if d["gen"].as_bool() == Some(true) {
+            let src = d["src"].as_str().unwrap_or("");
+            let only = d["scenario"].as_str();
+            let r = if d["impl"].as_str() == Some("simple") { gen_fail::<SData>(src, only, None) } else { gen_fail::<BData>(src, only, None) };
+            if let Some((kind, name, at, _)) = r {
+                cx.violation(&kind, &format!("{} | {} step {} | {}", d["impl"].as_str().unwrap_or(""), name, at, src.replace('\n', "\\n")), json!({"src": src}));
+            }
+            return;
+        }
         let evs: Vec<Ev> = d["events"]
             .as_array()
             .map(|a| {
